@@ -70,8 +70,9 @@ def init (c : RelCfg) (rows : List RRow) : Except Refusal Rel :=
   let r2 := if c.continuous then discretize c r1 else r1
   -- remove everything before the start
   let r3 := r2.filter (fun r => !(before c.rev r.time c.start))
-  -- a warm start skips the release at the start time
-  let r4 := if c.warm then r3.filter (fun r => r.time > c.start) else r3
+  -- a warm start skips the releases of the restart step itself (they are in the restart file): everything
+  -- before the first time step after the restart, in simulation order
+  let r4 := if c.warm then r3.filter (fun r => !(before c.rev r.time (if c.rev then c.start - c.dt else c.start + c.dt))) else r3
   if r4.isEmpty && !c.warm then .error .exit3 else
   let r5 := if c.releaseTimeCol then r4.map (fun r => { r with cols := r.cols ++ [("release_time", Val.num r.time)] }) else r4
   let times := uniqueTimes r5
